@@ -102,6 +102,12 @@ func genEngine(o *Out, r *rand.Rand, thorough bool) {
 					f = mutate(r, f)
 				}
 				if p2, t2, np2, fm2, err := fen.Decode(f); err == nil {
+					if !chessWF(p2, t2) {
+						// decodable but not a chess position (castling right without the king at home, phantom
+						// e.p. target, two kings): move legality is only specified on well-formed positions (C01)
+						o.Count("engine:mutated-reset-not-wf-skipped")
+						continue
+					}
 					b = board.NewBoard(zobrist(seed), p2, t2, np2, fm2)
 					depth = 0
 				}
@@ -156,4 +162,38 @@ func genEngine(o *Out, r *rand.Rand, thorough bool) {
 		o.Count("engine:total")
 		o.Nontrivial(line)
 	}
+}
+
+// chessWF is the decidable chess-level part of C01's well-formedness (Lean: Proofs.Gen.WFc): at most one king per
+// side, castling rights imply the king at home, an e.p. target is empty, on the sixth rank of the side to move, with
+// an enemy pawn directly behind it.
+func chessWF(p *board.Position, turn board.Color) bool {
+	if p.Piece(board.White, board.King).PopCount() > 1 || p.Piece(board.Black, board.King).PopCount() > 1 {
+		return false
+	}
+	at := func(sq board.Square, c board.Color, k board.Piece) bool {
+		cc, kk, ok := p.Square(sq)
+		return ok && cc == c && kk == k
+	}
+	if p.Castling()&board.CastlingRights(board.White) != 0 && !at(board.E1, board.White, board.King) {
+		return false
+	}
+	if p.Castling()&board.CastlingRights(board.Black) != 0 && !at(board.E8, board.Black, board.King) {
+		return false
+	}
+	if ep, ok := p.EnPassant(); ok {
+		if !p.IsEmpty(ep) {
+			return false
+		}
+		if turn == board.White {
+			if ep.Rank() != board.Rank6 || !at(ep-8, board.Black, board.Pawn) {
+				return false
+			}
+		} else {
+			if ep.Rank() != board.Rank3 || !at(ep+8, board.White, board.Pawn) {
+				return false
+			}
+		}
+	}
+	return true
 }
